@@ -38,7 +38,16 @@ TECHNIQUE = "property-based round-trip testing (write -> read) with generated ex
 LEVEL_TEXT = "Generated models and single-expression rate laws are exported, re-imported and compared with the original at random states; constructs outside the exporter's table must make the export raise."
 LEVEL_NOTE = "Trusted: libsbml and pysbml as carriers; the original Model's numbers (C01)."
 
-MATH1 = ["math.sqrt", "np.sqrt", "math.log", "np.log", "math.log10", "math.sin", "np.cos", "math.tanh", "np.abs", "abs", "math.ceil"]
+MATH1 = [
+    "math.sqrt", "np.sqrt", "math.log", "np.log", "math.log10", "np.log10", "math.sin", "np.sin", "np.cos", "math.cos", "math.tan", "np.tan",
+    "math.tanh", "np.tanh", "np.sinh", "math.cosh", "np.abs", "abs", "math.ceil", "np.ceil",
+    "np.arcsin", "np.arccos", "np.arctan", "np.arcsinh", "np.arccosh", "np.arctanh", "math.asin", "math.acos", "math.atan", "math.asinh", "math.acosh", "math.atanh",
+]  # fmt: skip
+# names the exporter lists (its UNARY / BINARY / NARY tables, looked up by attribute name under math / np / numpy or as a
+# bare call); anything else may be refused
+TABLE1 = {"sqrt", "abs", "ceil", "sin", "cos", "tan", "arcsin", "arccos", "arctan", "sinh", "cosh", "tanh", "arcsinh", "arccosh", "arctanh", "log", "log10"}
+FORMS2_LISTED = ["np.power({a}, 2.0)", "np.power(1.0 + ({a}) ** 2, {b})", "max({a}, {b})", "min({a}, {b})", "max({a}, {b}, 0.25)", "min({a}, 1.5, {b})", "np.remainder({a}, 2.0)", "math.log(1.0 + ({a}) ** 2, 3.0)"]
+FORMS2 = [*FORMS2_LISTED, "np.maximum({a}, {b})", "math.pow(1.0 + ({a}) ** 2, 0.5)"]
 PLAIN_NAMES = {"parameter": ["k1", "kf", "vmax", "Km", "p_a"], "variable": ["A", "B", "S1", "x_2"], "derived": ["ratio", "d_tot", "mod1"], "reaction": ["v1", "v_out", "r2"]}
 ESCAPED = ["x.a", "k-1", "v 1", "2x", "α"]
 
@@ -95,10 +104,22 @@ class G:
             self.feats.add("conditional")
             return f"({self.expr(depth - 1)} if {self.cond()} else {self.expr(depth - 1)})"
         self.feats.add("math_function")
+        if d(st.integers(0, 3)) == 0:
+            # calls with several arguments: the exporter's BINARY / NARY tables, and two-argument forms of unary names
+            self.feats.add("math_function_several_arguments")
+            a, b = self.expr(depth - 1), self.expr(depth - 1)
+            form = d(st.sampled_from(FORMS2))
+            if form not in FORMS2_LISTED:
+                self.feats.add("beyond:function_not_in_table")
+            return form.format(a=a, b=b)
         f = d(st.sampled_from(MATH1))
+        if f.split(".")[-1] not in TABLE1:
+            self.feats.add("beyond:function_not_in_table")
         inner = self.expr(depth - 1)
-        if "sqrt" in f or "log" in f:
+        if f.split(".")[-1] in ("sqrt", "log", "log10", "arccosh", "acosh"):
             inner = f"1.0 + ({inner}) ** 2"
+        elif f.split(".")[-1] in ("arcsin", "arccos", "arctanh", "asin", "acos", "atanh"):
+            inner = f"({inner}) / (1.0 + ({inner}) ** 2)"
         return f"{f}({inner})"
 
 
@@ -312,11 +333,17 @@ def _ill_conditioned(case: dict, ctx, st0: dict) -> list[str]:
 
 def examine(case: dict, ctx) -> Outcome:
     out = _examine(case, ctx)
-    if any(sig.split(":")[0] in ("initial-value-differs", "parameter-value-differs", "flux-differs", "derived-value-differs", "derivative-differs", "reread-model-raises") for sig, _ in out.verdicts):
+    value_sigs = ("initial-value-differs", "parameter-value-differs", "flux-differs", "derived-value-differs", "derivative-differs")
+    error_sigs = ("reread-model-raises", "written-file-cannot-be-read")
+    if any(sig.split(":")[0] in value_sigs + error_sigs for sig, _ in out.verdicts):
         try:
             t = _ill_conditioned(case, ctx, case["state"])
         except Exception:  # noqa: BLE001
             t = []
+        # a tie excuses a different value; only an undefined operation (complex / nan intermediate that the original
+        # happens to swallow) excuses a failure to read or evaluate
+        if not any(sig.split(":")[0] in value_sigs for sig, _ in out.verdicts):
+            t = [x for x in t if "undefined operand" in x]
         if t:
             # the original sits on a discontinuity (a tie inside a comparison, ceil of an integer up to rounding):
             # either side is a faithful answer, the difference is not judged
